@@ -15,7 +15,8 @@ RULE = (
     "exponent offsets -12..12 (quick -4..4), plus sparser sweeps at value / "
     "error exponents +-{16,17,99,100,101,200,300} (printed-width changes and "
     "the ends of the float range), and every value exponent -306..306 with 5 "
-    "mantissas x 4 offsets x 4 errors x both signs; each formatted string is read "
+    "mantissas x 6 offsets (down to errors 1e-12 of the value: 13 shown "
+    "digits) x 4 errors x both signs; each formatted string is read "
     "back by an independent regex + Decimal reader; non-trivial = every "
     "point (each is a distinct (x, err) pair)"
 )
@@ -24,8 +25,9 @@ ASSUMPTIONS = [
     "shown digits, times the shown power of ten",
     "required: |stated error - err| <= half a unit of err's second "
     "significant digit, the stated error has two digits, |stated value - x| "
-    "<= half a unit of the last shown digit; relative slack 1e-9 so that a "
-    "tie decided either way by binary rounding is accepted",
+    "<= half a unit of the last shown digit; slack: 1e-9 of the half unit / "
+    "of the error, and 2e-15 of the value (a few units of float precision) "
+    "so that a tie decided either way by binary rounding is accepted",
     "a bounded decimal lattice, not all floats",
 ]
 
@@ -126,7 +128,9 @@ def judge(x, err, s):
     if len(dd) != 2:
         return ("digits", "%r +- %r formatted as %r: %d bracketed digits"
                 % (x, err, s, len(dd)))
-    if abs(val - dx) > unit / 2 * (1 + slack) + abs(dx) * slack:
+    # (the value may be off by a few units of float precision before it is
+    # rounded - never by 1e-9 of itself)
+    if abs(val - dx) > unit / 2 * (1 + slack) + abs(dx) * Decimal("2e-15"):
         return ("value", "%r +- %r formatted as %r: stated value %s is not x "
                 "rounded to the last shown digit" % (x, err, s, val))
     return None
@@ -164,7 +168,7 @@ def run_task(task):
     if "xexps" in task:
         ms = ("1", "1.2812412309", "4.999", "9.4", "9.9995")
         for xe in task["xexps"]:
-            for off in (-3, -1, 0, 2):
+            for off in (-12, -10, -3, -1, 0, 2):
                 ee = xe + off
                 if not -320 < ee < 305:
                     continue
